@@ -124,13 +124,21 @@ def run(e: Engine, rep: Report):
              'issued after the message is complete waits for bytes that '
              'belong to nobody)')
     r510(e, rep)
-    rep.rule('R5.15', 'a position found with find() / rfind() is judged '
+    rep.rule('R5.17', 'a position found with find() / rfind() is judged '
              'against -1: in the DATA reader and sender no result of find '
              'is tested with `> 0`, `<= 0` or by truth - position 0 is a '
              'hit (a piece that begins with the line feed of a CR LF cut '
              'between two reads, a dot line at the very start), and taking '
              'it for "not found" leaves that line unfinished')
-    r515(e, rep)
+    r517(e, rep)
+    rep.rule('R5.18', 'the end marker is looked for in the whole line: what '
+             'the reader puts to eod_pattern (and to the leading-dot test) '
+             'below add_lines is the line as it stands in self.lines - '
+             'never the fragment the caller has just cut off the piece (a '
+             'line that arrived in two reads, `\\r\\n.` + `\\r\\n`, is '
+             'judged by its tail: the tail alone is not the marker, or '
+             'worse, it is although the line is not)')
+    r518(e, rep)
     rep.floor('R5.1', 2, 'sentinel tests and rewrite sites')
     rep.floor('R5.3', 5, 'hand-over obligations')
 
@@ -1062,8 +1070,8 @@ def r516(e: Engine, rep: Report, rule: str = 'R5.16'):
                   'dot only')
 
 
-# ------------------------------------------------------------------ R5.15
-def r515(e: Engine, rep: Report):
+# ------------------------------------------------------------------ R5.17
+def r517(e: Engine, rep: Report):
     mods = ('slimta.smtp.datareader', 'slimta.smtp.datasender')
     n = 0
     for f in sorted(e.p.functions.values(), key=lambda f: f.qname):
@@ -1121,7 +1129,7 @@ def r515(e: Engine, rep: Report):
                 continue
             n += 1
             rep.evaluations += 1
-            rep.check(bad is None, 'R5.15', f.qname,
+            rep.check(bad is None, 'R5.17', f.qname,
                       '`%s` judges the position against -1'
                       % ' '.join(ast.unparse(x).split())[:40],
                       '`%s` takes position 0 for "not found": a piece whose '
@@ -1134,6 +1142,59 @@ def r515(e: Engine, rep: Report):
                       % ' '.join(ast.unparse(x).split())[:40],
                       loc=f.loc(x), reason='== -1 / != -1 / >= 0 / < 0')
     if n < 1:
-        rep.ok('R5.15', 'slimta.smtp.datasender', 'no find() result is '
+        rep.ok('R5.17', 'slimta.smtp.datasender', 'no find() result is '
                'tested in the DATA reader / sender',
                reason='nothing to judge', nontrivial=False)
+
+
+# ------------------------------------------------------------------ R5.18
+def r518(e: Engine, rep: Report):
+    ctx = e.method_ctx(READER, 'add_lines')
+    g = e.build(ctx, raises=lambda b, n, r: set(),
+                inline=e.inline_same_self(deny=['_count_size',
+                                                '_append_line']),
+                max_depth=3)
+    n = 0
+    for nd in g.nodes:
+        if nd.kind != 'call' or not isinstance(nd.ast.func, ast.Attribute) \
+                or nd.ast.func.attr not in ('match', 'search', 'fullmatch') \
+                or 'eod' not in ast.unparse(nd.ast.func.value).lower() \
+                or not nd.ast.args:
+            continue
+        a0 = nd.ast.args[0]
+        if not isinstance(a0, ast.Name):
+            continue
+        n += 1
+        rep.evaluations += 1
+        rep.functions.add(nd.frame.ctx.func.qname)
+        defs = common.reaching_defs(g, nd, path_of(a0, nd.frame))
+        bad = None
+        for d in defs:
+            if d is None:
+                if a0.id in nd.frame.ctx.func.params:
+                    ae = getattr(nd.frame, 'arg_exprs', {}).get(a0.id)
+                    bad = 'the argument `%s` of its caller' % (
+                        ' '.join(ast.unparse(ae[0]).split())[:40]
+                        if ae else a0.id)
+                continue
+            v = d.ast.value if isinstance(d.ast, ast.Assign) else None
+            if not (isinstance(v, ast.Subscript) and
+                    'self.lines' in ast.unparse(v.value)):
+                o = common.origin(g, v, d.frame)[0] if v is not None else None
+                if not (isinstance(o, ast.Subscript) and
+                        'self.lines' in ast.unparse(o.value)):
+                    bad = '`%s`' % d.text(40)
+        rep.check(bad is None, 'R5.18', nd.frame.ctx.func.qname,
+                  '`%s` judges the stored line' % nd.text(40),
+                  'the line put to the end-of-data pattern can be %s - what '
+                  'has been cut off the piece just received, not the line '
+                  'as accumulated in self.lines: when a line arrives in two '
+                  'reads only its second part is examined, so `.` + CR LF '
+                  'after a cut is taken for the end of the data in the '
+                  'middle of a line (or the real marker is missed)' %
+                  (bad or ''), loc=nd.loc(),
+                  reason='every reaching definition reads self.lines[...]')
+    if n < 1:
+        rep.ok('R5.18', 'slimta.smtp.datareader', 'the end marker is not '
+               'matched on a local below add_lines',
+               reason='R5.11 reads the other shapes', nontrivial=False)
